@@ -112,3 +112,15 @@ pub struct DataId(pub u64);
 // BlobId::from(**id): same 32 bytes under another newtype
 pub fn vblobid_of_tree(id: &TreeId) -> (r: BlobId) ensures r == BlobId(id.0), { BlobId(id.0) }
 pub fn vblobid_of_data(id: &DataId) -> (r: BlobId) ensures r == BlobId(id.0), { BlobId(id.0) }
+
+// ---- Vec::dedup (std contract, ASSUMED; PartialEq of the element type is structural equality here) ----
+pub open spec fn dedup_seq<T>(s: Seq<T>) -> Seq<T> // keep-vis
+    decreases s.len()
+{
+    if s.len() <= 1 { s } else {
+        let r = dedup_seq(s.drop_last());
+        if s[s.len() - 2] == s.last() { r } else { r.push(s.last()) }
+    }
+}
+pub assume_specification<T: PartialEq, A: core::alloc::Allocator>[ Vec::<T, A>::dedup ](v: &mut Vec<T, A>)
+    ensures final(v)@ == dedup_seq(old(v)@);
